@@ -39,6 +39,13 @@ fn registry() -> Vec<CheckDef>
 			case_timeout_ms: 20_000,
 			level_text: "exhaustive enumeration of byte strings, fragment concatenations and token sequences (full and viable-prefix breadth-first from the empty input and from non-initial contexts), density/nesting pumps and limit probes through the real second-generation lexer, parser, header extraction and XML dumps, under a totality oracle and the reference lexer",
 		},
+		CheckDef {
+			id: "C16",
+			drive: checks::c16::drive,
+			work: checks::c16::work,
+			case_timeout_ms: 20_000,
+			level_text: "exhaustive enumeration of bounded derivations of the model grammar (every production, operator, precedence pattern, statement nesting, type form, declaration kind) in canonical and deviated layouts; each module parsed by both real parsers and compared with the model's own syntax tree",
+		},
 	]
 }
 
